@@ -370,8 +370,15 @@ def make_service(rng, ty, dev, idx):
             chunks.append(["pk", hx(did + "pk")])
         chunks += [["am", hx(dev["apmodel"])]] if dev.get("apmodel") else []
         chunks += [["vs", hx("366.0")]]
+        if rng.random() < 0.06:
+            chunks.append(["waMA", hx(rng.choice(["AA-BB,raMA=1", "AA-BB,broken"]))])
     elif ty == "_airport._tcp.local":
-        chunks = [["syAP", hx("115")], ["syVs", hx("7.8.1")]]      # no "waMA": its parsing is outside the model
+        chunks = [["syAP", hx("115")], ["syVs", hx("7.8.1")]]
+        r = rng.random()
+        if r < 0.45:      # AirPort Express: "waMA" is parsed by the RAOP device-info extractor
+            chunks.append(["waMA", hx("%s,raMA=70-73-CB-B9-4C-91,raM2=70-73-CB-BB-D4-12,syVs=7.8.1" % did.replace(":", "-"))])
+        elif r < 0.75:    # malformed: an element without "=" makes that extractor raise (for this one service)
+            chunks.append(["waMA", hx(rng.choice(["%s,raMA=1,broken", "%s,", "%s,,syVs=7.8.1", "%s,x"]) % did.replace(":", "-"))])
     elif ty == "_appletv-v2._tcp.local":
         inst = ("" if "dmap" in blank else dev["dmapid"]) + "_hs"
         port = dev["dmapport"]
@@ -729,13 +736,15 @@ def feed_for(sc, enc, order):
 
 def normalise(obs):
     """The snapshot the property talks about: address, identifiers, services with ports and
-    properties, model, deep-sleep flag - as a set."""
+    properties (merged per protocol, and the per-service-type table config.properties), model,
+    deep-sleep flag - as a set.  observe() copied everything when scan() returned."""
     out = []
     for c in obs:
         out.append((c["address"],
                     tuple(sorted(s[1] for s in c["services"] if s[1] is not None)),
                     tuple(sorted((s[0], s[2], tuple(sorted(map(tuple, s[3])))) for s in c["services"])),
-                    c["model"], c["deep_sleep"]))
+                    c["model"], c["deep_sleep"],
+                    tuple(sorted((t, tuple(sorted(map(tuple, p)))) for t, p in c["properties"]))))
     return sorted(out)
 
 
@@ -1145,7 +1154,8 @@ def run(ctx):
         "model hints agree",
         "one-per-iteration mode: after the protocol closed its receivers/transport no further datagram is delivered; "
         "burst mode: the rest of the batch is still delivered (identifier scans in burst mode are compared with the model only)",
-        "raop device_info 'wama' parsing and other extractor exceptions are outside the model (no such property generated)",
+        "of the device_info extractors only the MODEL key is modelled, including the raop extractor raising on a malformed "
+        "'wama' value (skipped per service by _get_device_info)",
     ]
 
 
